@@ -402,6 +402,24 @@ func (fr *Frame) pos(p token.Pos) token.Position {
 }
 
 // safety emits a safety obligation (top frame only) and conjoins the condition to alive.
+// obligationOnly: a safety obligation that is not itself a panic point (passing nil to a callee that assumes non-nil):
+// emitted in sweep mode, never assumed afterwards — the path continues whether or not it holds.
+func (fr *Frame) obligationOnly(st *State, in ssa.Instruction, kind, what, cond string) {
+	fe := fr.fe
+	if cond == "true" {
+		return
+	}
+	if fr.depth == 0 && fe.eng.safetyOn(fe) {
+		label := kind + ":" + what
+		fe.opCount[label]++
+		if n := fe.opCount[label]; n > 1 {
+			label = fmt.Sprintf("%s#%d", label, n-1)
+		}
+		fe.addOblig(&Oblig{Kind: "safety", Props: fe.eng.safetyProps(fe), Label: label, Reach: st.alive, Formula: cond,
+			Src: kind + " " + what, Pos: fr.pos(in.Pos())}, nil)
+	}
+}
+
 func (fr *Frame) safety(st *State, in ssa.Instruction, kind, what, cond string) {
 	fe := fr.fe
 	if cond == "true" {
